@@ -25,35 +25,21 @@ pub(crate) fn div_rem_in_place(
     let ghost l0 = lhs@;
     let ghost len = m as int;
     let ghost ni = n as int;
-    let ghost rr = val(rhs@);
-    let ghost a = val(l0);
-    proof {
-        assert(l0.subrange(len, len).len() == 0);
-        assert(val(l0.subrange(len, len)) == 0);
-        assert(pw(0) == 1);
-        assert(l0.subrange(0, len) =~= l0);
-        assert(((0 + b2i(false) * pw(0)) * pw(len - ni)) * rr == 0) by (nonlinear_arith) requires b2i(false) == 0;
-    }
+    proof { dc_outer::lemma_init(l0, rhs@); }
     @*/
     while m >= 2 * n
     /*@
         invariant
-            n as int == ni, rhs@.len() == ni, ni > div::THRESHOLD_SIMPLE, 2 * ni <= usize::MAX, lhs@.len() == len, len <= usize::MAX, ni <= m <= len,
-            len == l0.len(), rr == val(rhs@), a == val(l0),
+            n as int == ni, rhs@.len() == ni, ni > div::THRESHOLD_SIMPLE, 2 * ni <= usize::MAX, lhs@.len() == len,
+            len <= usize::MAX, ni <= m <= len, len == l0.len(),
             div_prepared(rhs@, fast_div_rhs_top),
-            a == ((val(lhs@.subrange(m as int, len)) + b2i(overflow) * pw(len - m)) * pw(m - ni)) * rr
-                + val(lhs@.subrange(0, m as int)),
-            m < len ==> val(lhs@.subrange(m - ni, m as int)) < rr,
-            m < len ==> overflow == (val(l0.subrange(len - ni, len)) >= rr),
-            m == len ==> !overflow && lhs@ == l0,
+            dc_outer::inv(l0, lhs@, rhs@, overflow, m as int),
         decreases m
     @*/
     {
         /*@ let ghost l = lhs@; let ghost ov = overflow; let ghost mi = m as int; @*/
         let o = div_rem_in_place_same_len(&mut lhs[m - 2 * n..m], rhs, fast_div_rhs_top, memory);
-        /*@ proof {
-            lemma_dc_outer_seq(a, l, lhs@, rhs@, o, ov, mi - 2 * ni, mi, ni);
-        } @*/
+        /*@ proof { dc_outer::lemma_step(l0, l, lhs@, rhs@, o, ov, mi - 2 * ni, mi); } @*/
         if o {
             debug_assert!(m == lhs.len());
             overflow = true;
@@ -63,19 +49,12 @@ pub(crate) fn div_rem_in_place(
     /*@ let ghost l = lhs@; let ghost ov = overflow; let ghost mi = m as int; @*/
     if m > n {
         let o = div_rem_in_place_small_quotient(&mut lhs[..m], rhs, fast_div_rhs_top, memory);
-        /*@ proof {
-            lemma_dc_outer_seq(a, l, lhs@, rhs@, o, ov, 0, mi, ni);
-        } @*/
+        /*@ proof { dc_outer::lemma_step(l0, l, lhs@, rhs@, o, ov, 0, mi); } @*/
         if o {
             debug_assert!(m == lhs.len());
             overflow = true;
         }
     }
-    /*@ proof {
-        assert(pw(0) == 1);
-        let q = val(lhs@.subrange(ni, len)) + b2i(overflow) * pw(len - ni);
-        assert((q * pw(0)) * rr == q * rr) by (nonlinear_arith) requires pw(0) == 1;
-        assert(lhs@.subrange(ni - ni, ni) =~= lhs@.subrange(0, ni));
-    } @*/
+    /*@ proof { dc_outer::lemma_fin(l0, lhs@, rhs@, overflow); } @*/
     overflow
 }
